@@ -2,7 +2,7 @@
 From Coq Require Import List String Bool.
 Import ListNotations.
 From NV Require Import Types.SigDefs Gen.PrimopSig Gen.PrimopDyn Props.C01.
-From NV Require Import Types.Syntax Types.Sem Types.Decl Types.LogRel Types.Safety Types.ModelSig Types.Checker.
+From NV Require Import Types.Syntax Types.Sem Types.Decl Types.LogRel Types.Safety Types.ModelSig Types.Checker Gen.ModelSigGen.
 
 Check (C01_sig_sound_generated :
   forall r, In r sig_table -> ~ In r.(s_name) exempt_ops ->
@@ -21,3 +21,7 @@ Check (C01_typed_result_in_type : forall Sg, sig_sound Sg ->
 
 Check (C01_checker_sound : forall Sg a T, check_deriv Sg a T = true -> has_type Sg [] (erase a) T).
 Check (C01_certified_safe : forall a T n, check_deriv model_sig a T = true -> safe_outcome (run n (erase a))).
+
+Check (C01_model_sig_matches_generated :
+  (forall o T, In (o, T) gen_model_sig -> model_sig o = Some T) /\
+  (forall o, exists T, In (o, T) gen_model_sig)).
